@@ -6,7 +6,7 @@ from lib import schedcommon as sc, vlib
 PROPS = "props/C04.v"
 PID = "C04"
 WHICH = ["stress"]
-TRUSTED = ["python register oracle lib/schedcommon.py stress_oracle (sound, incomplete); seeded yield injection at the store's verifPoints"]
+TRUSTED = ["split-read replay: harness parks readers at verifPoint get.looked; python register oracle lib/schedcommon.py stress_oracle (sound, incomplete); seeded yield injection at the store's verifPoints"]
 ASSUMPTIONS = ["the lock-granular atomicity of the model (client writes atomic under the bucket write lock, a read = tree lookup then positional "
                "read) is validated by the schedules, not proved of the Go code; data races below lock granularity are out of reach"]
 
@@ -23,6 +23,10 @@ def run(ctx):
     for w in WHICH:
         rs += sc.run_sched(ctx, w, (25 if ctx.tier == "quick" else 2000) if w == "stress" else 0, ctx.seed)
     sm = judge(rs)
+    srs = sc.run_sched(ctx, "splitread", 60 if ctx.tier == "quick" else 3000, ctx.seed)
+    mm, nsh, nok = sc.sr_evaluate(ctx, srs, "c04sr")
+    for r in srs:
+        sm += sc.splitread_oracle(r)
     dist = {}
     nops = 0
     for r in rs:
@@ -30,11 +34,27 @@ def run(ctx):
         nops += len(r.get("hist") or [])
         if r["scenario"] != "stress":
             dist["%s/%s" % (r["scenario"], r["variant"])] = 1
-    nt = {vlib.sha([r["scenario"], r["variant"], r.get("hist"), r.get("obs")]) for r in rs if r["scenario"] != "stress" or len(r.get("hist") or []) >= 40}
+    npark = sum(1 for r in srs for e in r["evs"] if e["ev"] == "B")
+    nlate = 0
+    for r in srs:
+        openb = {}
+        for idx, e in enumerate(r["evs"]):
+            if e["ev"] == "B":
+                openb[e["c"]] = idx
+            elif e["ev"] == "E" and idx - openb.pop(e["c"], idx) > 1:
+                nlate += 1
+    dist["scenario:splitread"] = len(srs)
+    dist["splitread: reads begun"] = npark
+    dist["splitread: reads finished after >= 1 other step"] = nlate
+    nops += sum(len(r["evs"]) for r in srs)
+    nt = {vlib.sha([r["variant"], r["evs"]]) for r in srs if len(r["evs"]) >= 15} | {vlib.sha([r["scenario"], r["variant"], r.get("hist"), r.get("obs")]) for r in rs if r["scenario"] != "stress" or len(r.get("hist") or []) >= 40}
     samples = [dict(scenario=r["scenario"], variant=r["variant"], obs=r.get("obs"), ops=len(r.get("hist") or []), final=r.get("final")) for r in rs[:4]]
-    return dict(evaluations=len(rs), distinct_nontrivial=len(nt), samples=samples, model_mismatches=[], spec_violations=sm,
-                shards=0, shards_ok=0, dist=dist, extra=dict(recorded_operations=nops),
-                rule="forced schedules park a goroutine of the real store at a named verifPoint and run the other party to completion; stress "
+    return dict(evaluations=len(rs) + len(srs), distinct_nontrivial=len(nt), samples=samples, model_mismatches=mm, spec_violations=sm,
+                shards=nsh, shards_ok=nok, dist=dist, extra=dict(recorded_operations=nops),
+                rule="split reads: readers of the real store are parked between position lookup and positional read (verifPoint get.looked) "
+                     "while the main client sets / deletes / rotates files / flushes / dumps hints, then released in seeded order; the event "
+                     "trace (atomic ops, read begin, read end, with every reply) is replayed on model/Sched.v c_step inside Coq and every reply compared; "
+                     "forced schedules park a goroutine of the real store at a named verifPoint and run the other party to completion; stress "
                      "runs 2..8 client goroutines x 25 operations (set / delete / get / meta-get of unique values on 1..3 shared keys) with a "
                      "flusher + hint dumper loop, small file and split limits and seeded yield / sleep injection at every verifPoint, recording "
                      "invocation and response order; non-trivial = scenario run or history of >= 40 operations")
@@ -43,6 +63,9 @@ def run(ctx):
 def search(ctx, broken):
     found = []
     for s in range(2):
+        srs = sc.run_sched(ctx, "splitread", 60, ctx.seed * 100 + 40 + s)
+        for r in srs:
+            found += sc.splitread_oracle(r)
         rs = []
         for w in WHICH:
             rs += sc.run_sched(ctx, w, 25 if w == "stress" else 0, ctx.seed * 100 + 4 + s)
@@ -72,9 +95,17 @@ def replay(ctx, path):
         print("replay file names no concrete input:", json.dumps(obj.get("broken")))
         return 1
     rs = []
-    for w in WHICH:
-        rs += sc.run_sched(ctx, w, 25 if w == "stress" else 0, case["seed"])
-    viol = [v for v in judge(rs) if v["case"].get("scenario") == case.get("scenario")]
+    if case.get("scenario") == "splitread":
+        srs = sc.run_sched(ctx, "splitread", 60 if case["i"] < 60 else 3000, case["seed"])
+        viol = [v for r in srs for v in sc.splitread_oracle(r)]
+        mm, _, _ = sc.sr_evaluate(ctx, [r for r in srs if r["i"] == case["i"]], "c04replay")
+        for m in mm:
+            print("model/implementation differ:", json.dumps(m)[:300])
+        viol += [dict(kind="model-mismatch", what=json.dumps(m)[:200]) for m in mm]
+    else:
+        for w in WHICH:
+            rs += sc.run_sched(ctx, w, 25 if w == "stress" else 0, case["seed"])
+        viol = [v for v in judge(rs) if v["case"].get("scenario") == case.get("scenario")]
     for x in viol[:5]:
         print(x["kind"], x["what"])
     if viol:
